@@ -1118,7 +1118,7 @@ public:
     cov["fault_kinds"] =
         "preemption at every AtomicValue operation, at optional plain-read "
         "points and (60 % of the runs) at every packet and task event inside "
-        "task bodies (policies uniform/burst/pct/rr), task stealing, "
+        "task bodies (policies uniform/burst/pct/rr/after-release), task stealing, "
         "premature launch, buffer overflow; 35 % of the multi-threaded C01 / "
         "C12 runs with buffer and task pools reduced to twice the measured "
         "need (slot indices wrap, freed slots are reused at once)";
